@@ -859,6 +859,160 @@ def g_trn_multialt(rng):
     return g_style(rng, c, 0.2)
 
 
+# ---- unusual but legal characters in tokens / ids / names, for every file format (round-4 miss C11-g) -------------------
+# Each format has its own delimiters; every other character is legal in a token and must come back unchanged:
+#   trn       ' ' between tokens, '{' (and '/', '}' inside an alternate), LF/CR; '(' in an utterance id
+#   ctm       every Unicode white space (the format is white-space separated by definition), the comment mark ';;'
+#   TextGrid  '"' (and line breaks: outside the model's line-level reader)
+# so a tab, U+00A0, U+3000 ... inside a trn token or a TextGrid label is data, not a separator.
+WS_CP = [9, 10, 11, 12, 13, 28, 29, 30, 31, 32, 133, 160, 5760] + list(range(8192, 8203)) + [8232, 8233, 8239, 8287, 12288]
+WS_OTHER = [chr(c) for c in WS_CP if c not in (10, 13, 32)]          # white space that is neither ' ' nor a line break
+BSL = chr(92)
+ODD_QUOTE = ['"', "'", "`", BSL, BSL + BSL, "''", BSL + "n", BSL + "t", BSL + '"']
+# combining marks (alone they attach to the neighbour), a decomposed letter, zero-width / format characters (not white
+# space for str.isspace), soft hyphen, replacement / non-characters, non-BMP, letters whose case / NFKC forms differ
+ODD_COMB = [chr(c) for c in (0x301, 0x308, 0x3099, 0x200B, 0x200C, 0x200D, 0x2060, 0xFEFF, 0x180E, 0xAD, 0xFFFD, 0xFFFF,
+                             0x1F600, 0x10000, 0x10FFFF, 0x212B, 0xFB01, 0x1E9E, 0x130, 0xE9, 0x3042)] + ["e" + chr(0x301)]
+ODD_CTRL = [chr(c) for c in (0, 1, 8, 27, 127, 128, 132, 134, 159)]
+ODD_ASCII = list("#*?~^$%&=+<>[]@!|,:")
+ODD_FOREIGN = {           # the OTHER formats' delimiters (and the format's own where the position makes them plain)
+    "trn_top": ["/", "}", "(", ")", ";", ";;", '"', "a/b", "//", ")("],
+    "trn_in": ["(", ")", ";", ";;", '"', "()"],
+    "utt": [" ", "  ", ")", "{", "}", "/", ";;", '"', ") ", "{ a / b }"],
+    "ctm": ["{", "}", "/", "(", ")", '"', ";", "{/}", "()", "a;b"],
+    "tg": ["{", "}", "/", "(", ")", ";", ";;", " ", "  ", "{ a / b }", "(u)"],
+}
+
+
+def _odd_piece(rng, where):
+    """one unusual piece (a character or a short cluster) that is legal at `where`"""
+    cats = [ODD_QUOTE, ODD_COMB, ODD_CTRL, ODD_ASCII, ODD_FOREIGN[where]]
+    if where != "ctm":
+        cats += [WS_OTHER, WS_OTHER, WS_OTHER]          # white space other than the delimiter: a fair share
+    p = rng.choice(rng.choice(cats))
+    if where == "tg":
+        p = p.replace('"', "'")
+    return p
+
+
+def g_odd(rng, where, empty_ok=False):
+    """a token / id / name with unusual characters in every position: interior, leading, trailing, alone, doubled, mixed"""
+    shape = rng.choice(["mid", "mid", "lead", "trail", "alone", "dbl", "mix", "mix"])
+    a, b = rng.choice("abx1"), rng.choice("aby0")
+    p = _odd_piece(rng, where)
+    if shape == "mid":
+        s = a + p + b
+    elif shape == "lead":
+        s = p + a
+    elif shape == "trail":
+        s = a + p
+    elif shape == "alone":
+        s = p
+    elif shape == "dbl":
+        s = a + p + p + b
+    else:
+        s = "".join(_odd_piece(rng, where) if rng.random() < 0.5 else rng.choice("abx1") for _ in range(rng.choice([2, 3, 5])))
+    if where == "ctm":
+        while ";;" in s:
+            s = s.replace(";;", ";")
+    if empty_ok and rng.random() < 0.08:
+        s = ""
+    return s
+
+
+def g_trn_chars(rng):
+    """transcripts whose tokens and utterance ids use every character the trn format does not reserve; lines with and
+    without alternates (the reader may take a different route for either); white space other than ' ' inside, at the
+    start and at the end of tokens, and as whole tokens - except at the two ends of a line (see the pending corpus case
+    trn_line_end_whitespace: the unchanged reader strips there)"""
+    ts = []
+    for _ in range(rng.choice([1, 1, 2, 3])):
+        tr = [g_odd(rng, "trn_top") if rng.random() < 0.75 else g_tok(rng, True) for _ in range(rng.choice([1, 2, 3, 4]))]
+        if rng.random() < 0.4:
+            def branch(d):
+                out = []
+                for _ in range(rng.choice([1, 1, 2])):
+                    if d > 0 and rng.random() < 0.25:
+                        out.append({"alt": [branch(d - 1) for _ in range(rng.choice([1, 2]))]})
+                    else:
+                        out.append(g_odd(rng, "trn_in") if rng.random() < 0.75 else g_tok(rng, False))
+                return out
+            tr.insert(rng.randint(0, len(tr)), {"alt": [branch(1) for _ in range(rng.choice([1, 2, 3]))]})
+        if isinstance(tr[0], str) and tr[0][0].isspace():
+            tr[0] = rng.choice("ab") + tr[0]
+        if isinstance(tr[-1], str) and tr[-1][-1].isspace():
+            tr[-1] = tr[-1] + rng.choice("ab")
+        u = g_odd(rng, "utt", empty_ok=True) if rng.random() < 0.6 else g_utt(rng)
+        ts.append([u.replace("(", "["), tr])
+    c = {"kind": "trn", "ts": ts, "times": rng.random() < 0.2, "via": rng.choice(["mem", "disk"])}
+    if rng.random() < 0.3:
+        c["iter"] = True
+    return g_style(rng, c, 0.2)
+
+
+def g_trn_chars_pool(rng):
+    c = g_trn_chars(rng)
+    c["ts"] = (c["ts"] + g_trn_chars(rng)["ts"]) * rng.choice([1, 2])
+    c.update(kind="trn_pool", proc=rng.choice([1, 2, 3]), chunk=rng.choice([1, 2, 1000]), entry=rng.choice(["path", "file"]),
+             rot=rng.randint(0, 5))
+    for k in ("times", "via", "iter", "style"):
+        c.pop(k, None)
+    return c
+
+
+def g_ctm_chars(rng):
+    """ctm fields (token, waveform name, channel; utterance ids behind a mapping: anything, also white space / empty) with
+    every character that is not white space and without the comment mark ';;'"""
+    def fld(p=0.75):
+        return g_odd(rng, "ctm") if rng.random() < p else g_word(rng)
+    use_dict = rng.random() < 0.6
+    ts, ids, m, wcs = [], set(), [], set()
+    for i in range(rng.choice([1, 2, 3, 4])):
+        u = g_odd(rng, "utt", empty_ok=True) if (use_dict and rng.random() < 0.5) else fld()
+        if u in ids:
+            continue
+        ids.add(u)
+        tr = []
+        for _ in range(rng.choice([1, 2, 3])):
+            s = rng.randint(0, 300)
+            tr.append([fld(0.85), s, s + rng.choice([0, 1, 32, 64])])
+        ts.append([u, tr])
+        if use_dict:
+            wc = [fld(0.6), fld(0.4) if rng.random() < 0.5 else rng.choice(["A", "B", "1"])]
+            if tuple(wc) in wcs:
+                wc = ["w%d" % i, "A"]
+            wcs.add(tuple(wc))
+            m.append([u, wc])
+    if use_dict:
+        rng.shuffle(m)
+        c = {"kind": "ctm", "ts": ts, "utt2wc": m, "wc2utt": [[wc, u] for u, wc in m]}
+    else:
+        c = {"kind": "ctm", "ts": ts, "utt2wc": fld(0.5), "wc2utt": None}
+    c["roundtrip"] = ctm_valid(c)
+    return g_style(rng, c, 0.2)
+
+
+def g_tg_chars(rng):
+    """TextGrid labels and tier names with every character but '"' and line breaks: white space of all kinds (also ' ')
+    inside / around / as the whole label, empty labels, the other formats' delimiters, backslashes, quotes"""
+    point = rng.random() < 0.3
+    t = rng.choice([0.0, 0.5, 1.25])
+    tr = []
+    for _ in range(rng.choice([1, 2, 3, 4])):
+        if rng.random() < 0.3:
+            t += 0.25
+        d = 0.0 if point else rng.choice([0.125, 0.5, 1.0])
+        tr.append([g_odd(rng, "tg", empty_ok=True) if rng.random() < 0.85 else "a", t, t + d])
+        t += d + (0.5 if point else 0.0)
+    c = {"kind": "tg", "tr": tr, "precision": 3 if rng.random() < 0.8 else rng.choice([1, 4]),
+         "point_tier": None if rng.random() < 0.8 else point, "tier_id": 0,
+         "fill": rng.choice([None, None, "<gap>", chr(9), "a" + chr(160) + "b"])}
+    if rng.random() < 0.4:
+        c["tier_name"] = g_odd(rng, "tg", empty_ok=True)
+        c["tier_id"] = rng.choice([0, c["tier_name"]])
+    return g_style(rng, c, 0.2)
+
+
 SOUP = list("ab {}{}/ () \n") + ["\t", "\xa0", "\u2003", "\x0b", "\x1c", "é"]
 
 
@@ -1176,6 +1330,16 @@ def gen_cases(chk):
         c = g_trn_pool(rng)
         c["stream"] = "pool"
         cases.append(c)
+    # round-4 miss C11-g: unusual but legal characters, every format (drawn last: the older streams keep their cases)
+    for g, n in [(g_trn_chars, 90), (g_ctm_chars, 60), (g_tg_chars, 60)]:
+        for _ in range(n * mult):
+            c = g(rng)
+            c["stream"] = "chars"
+            cases.append(c)
+    for _ in range(4 * (3 if thorough else 1)):
+        c = g_trn_chars_pool(rng)
+        c["stream"] = "chars-pool"
+        cases.append(c)
     only = os.environ.get("C11_KINDS")      # developer switch: restrict a run to some kinds
     if only:
         cases = [c for c in cases if c["kind"] in only.split(",")]
@@ -1372,6 +1536,12 @@ def run(chk, cases=None):
             chk.count("tok fs=%s" % c.get("fs"))
         if c["kind"] == "trn_pool":
             chk.count("pool processes=%d chunk=%d entry=%s" % (c["proc"], c["chunk"], c["entry"]))
+        if streams[idx].startswith("chars"):
+            txt = "".join(_case_strings(c.get("ts", c.get("tr", []))))
+            chk.count("chars %s: %s" % (c["kind"], "white space other than ' '" if any(ch in txt for ch in WS_OTHER)
+                                        else "quote / backslash" if any(ch in txt for ch in "\"'`" + BSL) else "other"))
+            if c["kind"] == "trn":
+                chk.count("chars trn: " + ("line with an alternate" if has_alt(c["ts"]) else "no alternate"))
     chk.extra["model_disagreements"] = len(bad_plain)
     chk.extra["metamorphic_failures"] = len(meta_bad)
     chk.extra["discriminating_cases"] = {k: len(v) for k, v in discr.items()}
@@ -1453,6 +1623,17 @@ def run(chk, cases=None):
                 print("   ", "ok  " if v else "FAIL", l)
             for m in meta:
                 print("    FAIL", m)
+
+
+def _case_strings(o):
+    if isinstance(o, str):
+        yield o
+    elif isinstance(o, dict):
+        for v in o.values():
+            yield from _case_strings(v)
+    elif isinstance(o, (list, tuple)):
+        for v in o:
+            yield from _case_strings(v)
 
 
 def _jsonable(o):
